@@ -39,7 +39,9 @@ static rc::Gen<KV> gen_c07() {
                 c["declared"] = num((r >> 4) & 1 ? std::get<4>(t) : ((r >> 5) & 1 ? 32 : 0));
                 c["xmode"] = num((r >> 6) & 1);        // XOF/XOFA with a declared length: 0 = *_fixed, 1 = *_custom("name", custom)
                 c["phase2"] = num((r >> 27) & 3);     // XOF/XOFA/PRF: 1,3 = absorb more after squeezing, then squeeze again (3: with a pad call first)
-                c["pad_at"] = num((r >> 7) & 1 ? ((r >> 24) % 6) : 99);  // XOF/XOFA: ascon_xof(a)_pad before absorb chunk #pad_at
+                c["pad_at"] = num((r >> 7) & 1 ? ((r >> 24) % 6) : 99);
+                c["nameidx"] = num((r >> 29) & 3);
+                c["hugedecl"] = num(((r >> 20) & 15) == 15 ? 1 + ((r >> 16) % 3) : 0);  // XOF/XOFA: ascon_xof(a)_pad before absorb chunk #pad_at
                 return c;
             });
         });
@@ -73,6 +75,8 @@ struct XofLike {
     union { ascon_hash_state_t h; ascon_hasha_state_t ha; ascon_xof_state_t x; ascon_xofa_state_t xa; ascon_prf_state_t p;
             ascon_kmac_state_t km; ascon_kmaca_state_t kma; ascon_kdf_state_t kd; ascon_kdfa_state_t kda; } *s;
     int xmode = 0;
+    int nameidx = 0;     // custom variants: function name "name", NULL, "" or 40 characters
+    const char *fname() const { static const char *N[4] = {"name", nullptr, "", "forty-characters-long-function-name-....."}; return N[nameidx & 3]; }
     explicit XofLike(int i) : iface(i) { s = (decltype(s))xalloc(sizeof(*s)); memset(s, 0xA5, sizeof(*s)); }
     ~XofLike() { xfree(s, sizeof(*s)); }
     void init(bool re, const Bytes &key, const Bytes &custom, size_t declared) {
@@ -80,9 +84,9 @@ struct XofLike {
         switch (iface) {
         case I_HASH: re ? ascon_hash_reinit(&s->h) : ascon_hash_init(&s->h); break;
         case I_HASHA: re ? ascon_hasha_reinit(&s->ha) : ascon_hasha_init(&s->ha); break;
-        case I_XOF: if (declared && xmode) { re ? ascon_xof_reinit_custom(&s->x, "name", cu.p, cu.n, declared) : ascon_xof_init_custom(&s->x, "name", cu.p, cu.n, declared); }
+        case I_XOF: if (declared && xmode) { re ? ascon_xof_reinit_custom(&s->x, fname(), cu.p, cu.n, declared) : ascon_xof_init_custom(&s->x, fname(), cu.p, cu.n, declared); }
                     else if (declared) { re ? ascon_xof_reinit_fixed(&s->x, declared) : ascon_xof_init_fixed(&s->x, declared); } else { re ? ascon_xof_reinit(&s->x) : ascon_xof_init(&s->x); } break;
-        case I_XOFA: if (declared && xmode) { re ? ascon_xofa_reinit_custom(&s->xa, "name", cu.p, cu.n, declared) : ascon_xofa_init_custom(&s->xa, "name", cu.p, cu.n, declared); }
+        case I_XOFA: if (declared && xmode) { re ? ascon_xofa_reinit_custom(&s->xa, fname(), cu.p, cu.n, declared) : ascon_xofa_init_custom(&s->xa, fname(), cu.p, cu.n, declared); }
                      else if (declared) { re ? ascon_xofa_reinit_fixed(&s->xa, declared) : ascon_xofa_init_fixed(&s->xa, declared); } else { re ? ascon_xofa_reinit(&s->xa) : ascon_xofa_init(&s->xa); } break;
         case I_PRF: if (declared) { re ? ascon_prf_fixed_reinit(&s->p, k.p, declared) : ascon_prf_fixed_init(&s->p, k.p, declared); } else { re ? ascon_prf_reinit(&s->p, k.p) : ascon_prf_init(&s->p, k.p); } break;
         case I_KMAC: re ? ascon_kmac_reinit(&s->km, k.p, k.n, cu.p, cu.n, declared) : ascon_kmac_init(&s->km, k.p, k.n, cu.p, cu.n, declared); break;
@@ -155,6 +159,9 @@ static std::string check_xoflike(const KV &c, int iface) {
     if (iface <= I_HASHA) { out_chunks.clear(); out_chunks.push_back(32); }
     bool absorbs = iface != I_KDF && iface != I_KDFA;
     int xmode = (int)tonum(c, "xmode");
+    int nameidx = (int)tonum(c, "nameidx");
+    // XOF/XOFA: occasionally a declared length at or above 2^29 (documented: treated as arbitrary-length output)
+    if ((iface == I_XOF || iface == I_XOFA) && declared && tonum(c, "hugedecl")) declared = tonum(c, "hugedecl") == 1 ? ((size_t)1 << 29) : tonum(c, "hugedecl") == 2 ? (size_t)-1 : (((size_t)5 << 32) | 32);
     // ascon_xof(a)_pad before chunk #pad_at is documented as absorbing zeroes up to the next multiple of the rate
     size_t pad_at = (iface == I_XOF || iface == I_XOFA) ? tonum(c, "pad_at", 99) : 99, pad_pos = (size_t)-1;
     {
@@ -181,7 +188,7 @@ static std::string check_xoflike(const KV &c, int iface) {
         if (direct) want = o.bytes();
         else {
             XofLike f(iface);
-            f.xmode = xmode;
+            f.xmode = xmode; f.nameidx = nameidx;
             f.init(false, key, custom, declared);
             if (absorbs) f.absorb(data_padded);
             want = f.squeeze(outlen);
@@ -191,7 +198,11 @@ static std::string check_xoflike(const KV &c, int iface) {
     XofLike a(iface), b(iface);
     bool have_copy = false;
     a.xmode = b.xmode = xmode;
-    if (tonum(c, "reinit")) { a.xmode = !xmode; a.init(false, key, junk, declared ? declared + 1 : 32); a.xmode = xmode; }   // the junk history starts in a different variant
+    a.nameidx = b.nameidx = nameidx;
+    if (tonum(c, "reinit")) {   // the junk history starts in a different variant and under a different key
+        Bytes k2 = key; if (k2.empty()) k2.push_back(0x5c); else { k2[0] ^= 0x80; if (iface != I_PRF) k2.push_back(0x33); }
+        a.xmode = !xmode; a.init(false, k2, junk, declared ? declared + 1 : 32); a.xmode = xmode;
+    }
     else a.init(false, key, custom, declared);
     if (tonum(c, "reinit")) {
         // arbitrary prior history on the same object, then re-initialise
@@ -231,7 +242,7 @@ static std::string check_xoflike(const KV &c, int iface) {
     if (phase2 & 1) {
         size_t n2 = 1 + junk.size() % 40;
         XofLike f(iface);
-        f.xmode = xmode;
+        f.xmode = xmode; f.nameidx = nameidx;
         f.init(false, key, custom, declared);
         f.absorb(data_padded);
         f.squeeze(outlen);
@@ -264,11 +275,13 @@ static std::string check_hmac(const KV &c, int iface) {
     Buf k(key), d(data), w(32), o(32);
     if (a) ascon_hmaca(w.p, k.p, k.n, d.p, d.n); else ascon_hmac(w.p, k.p, k.n, d.p, d.n);
     ascon_hmac_state_t s; ascon_hmaca_state_t sa;
-    if (a) ascon_hmaca_init(&sa, k.p, k.n); else ascon_hmac_init(&s, k.p, k.n);
+    Bytes key2 = key; if (key2.empty()) key2.push_back(0x5c); else { key2[0] ^= 0x80; key2.push_back(0x33); }
+    Buf k2(tonum(c, "reinit") ? key2 : key);     // the junk history runs under another key
+    if (a) ascon_hmaca_init(&sa, k2.p, k2.n); else ascon_hmac_init(&s, k2.p, k2.n);
     if (tonum(c, "reinit")) {
         size_t pos = 0;
         for (uint64_t ch : junk_chunks) { Buf p(slice(junk, pos, ch)); if (a) ascon_hmaca_update(&sa, p.p, p.n); else ascon_hmac_update(&s, p.p, p.n); pos += ch; }
-        if (tonum(c, "junk_squeeze")) { Buf t(32); if (a) ascon_hmaca_finalize(&sa, k.p, k.n, t.p); else ascon_hmac_finalize(&s, k.p, k.n, t.p); }
+        if (tonum(c, "junk_squeeze")) { Buf t(32); if (a) ascon_hmaca_finalize(&sa, k2.p, k2.n, t.p); else ascon_hmac_finalize(&s, k2.p, k2.n, t.p); }
         if (a) ascon_hmaca_reinit(&sa, k.p, k.n); else ascon_hmac_reinit(&s, k.p, k.n);
     }
     size_t pos = 0;
@@ -287,7 +300,11 @@ static std::string check_hkdf(const KV &c, int iface) {
     int rc = a ? ascon_hkdfa(w.nn(), outlen, k.p, k.n, s.p, s.n, in.p, in.n) : ascon_hkdf(w.nn(), outlen, k.p, k.n, s.p, s.n, in.p, in.n);
     if (rc != 0) return "hkdf one-shot failed";
     ascon_hkdf_state_t st; ascon_hkdfa_state_t sta;
-    if (a) ascon_hkdfa_extract(&sta, k.p, k.n, s.p, s.n); else ascon_hkdf_extract(&st, k.p, k.n, s.p, s.n);
+    {
+        Bytes key2 = key; if (key2.empty()) key2.push_back(0x5c); else key2[0] ^= 0x80;
+        Buf k2(tonum(c, "reinit") ? key2 : key);   // the first extract of a re-used object is under another key
+        if (a) ascon_hkdfa_extract(&sta, k2.p, k2.n, s.p, s.n); else ascon_hkdf_extract(&st, k2.p, k2.n, s.p, s.n);
+    }
     if (tonum(c, "reinit")) {
         // use, then extract again on the same object
         Buf t(1 + info.size() % 70);
